@@ -18,7 +18,7 @@ EVAL_STUBS = [
 
 KANI_UNITS = {}
 # units whose cells have not yet been validated end-to-end on the unchanged tree are kept out of MANIFEST.json
-NOT_READY = {"C05", "C09", "C10", "C11", "C30", "C33", "C34", "C43"}
+NOT_READY = {"C05"}
 
 C09_SHIM = '''
 // ---- vpv: re-export shim (verification builds only) ----
